@@ -79,6 +79,8 @@ async fn asynchronous(worterbuch: &CloneableWbApi, config: &Config) -> Persisten
     .await?;
 
     File::create(&last_persisted).await?;
+    #[cfg(feature = "verif")]
+    crate::verif::fs_step("last-persisted");
 
     Ok(())
 }
@@ -119,6 +121,8 @@ pub(crate) async fn synchronous(
     .await?;
 
     File::create(&last_persisted).await?;
+    #[cfg(feature = "verif")]
+    crate::verif::fs_step("last-persisted");
 
     Ok(())
 }
@@ -149,6 +153,8 @@ async fn write_to_disk(data: &[u8], path: &Path) -> PersistenceResult<()> {
     fs::rename(tmp_file, path)
         .instrument(debug_span!("rename"))
         .await?;
+    #[cfg(feature = "verif")]
+    crate::verif::fs_step(format!("rename:{}", crate::verif::fs_file_label(path).0));
     debug!("Writing file {} done.", path.to_string_lossy());
 
     Ok(())
@@ -157,8 +163,18 @@ async fn write_to_disk(data: &[u8], path: &Path) -> PersistenceResult<()> {
 #[instrument(level=Level::DEBUG, skip(data), err)]
 async fn write_file<P: AsRef<Path> + Debug>(path: P, data: &[u8]) -> PersistenceResult<()> {
     let mut file = File::create(&path).await?;
+    #[cfg(feature = "verif")]
+    crate::verif::fs_step(format!(
+        "create-tmp:{}",
+        crate::verif::fs_file_label(path.as_ref()).0
+    ));
     file.write_all(data).await?;
     file.flush().await?;
+    #[cfg(feature = "verif")]
+    crate::verif::fs_step(format!(
+        "write:{}",
+        crate::verif::fs_file_label(path.as_ref()).0
+    ));
     Ok(())
 }
 
@@ -242,6 +258,11 @@ pub async fn load(config: &Config) -> PersistenceResult<Worterbuch> {
 }
 
 async fn try_load(path: &Path, checksum: &Path, config: &Config) -> PersistenceResult<Worterbuch> {
+    #[cfg(feature = "verif")]
+    crate::verif::fs_step(format!(
+        "read-store:{}",
+        crate::verif::fs_file_label(path).1
+    ));
     let json = read_json_from_file(path, checksum).await?;
     let store = serde_json::from_str(&json)?;
     let worterbuch = Worterbuch::from_persistence(store, config.to_owned());
@@ -254,6 +275,11 @@ async fn try_load_grave_goods_last_will(
     path: &Path,
     checksum: &Path,
 ) -> PersistenceResult<GraveGoodsLastWill> {
+    #[cfg(feature = "verif")]
+    crate::verif::fs_step(format!(
+        "read-gglw:{}",
+        crate::verif::fs_file_label(path).1
+    ));
     let json = read_json_from_file(path, checksum).await?;
     let grave_goods_last_will = serde_json::from_str(&json)?;
     info!("Grave goods and last will successfully restored form persistence.");
@@ -322,6 +348,8 @@ pub(crate) async fn file_paths(
 async fn toggle_alternating_files(path: &Path, write: bool) -> PersistenceResult<bool> {
     if write {
         if remove_file(path).await.is_ok() {
+            #[cfg(feature = "verif")]
+            crate::verif::fs_step("toggle-remove");
             debug!(
                 "toggle file {} removed, writing to backup",
                 path.to_string_lossy()
@@ -329,6 +357,8 @@ async fn toggle_alternating_files(path: &Path, write: bool) -> PersistenceResult
             Ok(false)
         } else {
             File::create(path).await?;
+            #[cfg(feature = "verif")]
+            crate::verif::fs_step("toggle-create");
             debug!(
                 "toggle file {} created, writing to main",
                 path.to_string_lossy()
